@@ -3024,6 +3024,10 @@ func (c S3ApiController) DeleteObjects(ctx *fiber.Ctx) error {
 		if obj.Key != nil {
 			key = *obj.Key
 		}
+		delAction := auth.DeleteObjectAction
+		if obj.VersionId != nil && *obj.VersionId != "" {
+			delAction = auth.DeleteObjectVersionAction
+		}
 		err = auth.VerifyAccess(ctx.Context(), c.be,
 			auth.AccessOptions{
 				Readonly:      c.readonly,
@@ -3033,7 +3037,7 @@ func (c S3ApiController) DeleteObjects(ctx *fiber.Ctx) error {
 				Acc:           acct,
 				Bucket:        bucket,
 				Object:        key,
-				Action:        auth.DeleteObjectAction,
+				Action:        delAction,
 			})
 		if err != nil {
 			return SendResponse(ctx, err,
@@ -3176,7 +3180,11 @@ func (c S3ApiController) DeleteActions(ctx *fiber.Ctx) error {
 			})
 	}
 
-	//TODO: check s3:DeleteObjectVersion policy in case a use tries to delete a version of an object
+	// removing a specific version needs s3:DeleteObjectVersion
+	delAction := auth.DeleteObjectAction
+	if versionId != "" {
+		delAction = auth.DeleteObjectVersionAction
+	}
 
 	err := auth.VerifyAccess(ctx.Context(), c.be,
 		auth.AccessOptions{
@@ -3187,7 +3195,7 @@ func (c S3ApiController) DeleteActions(ctx *fiber.Ctx) error {
 			Acc:           acct,
 			Bucket:        bucket,
 			Object:        key,
-			Action:        auth.DeleteObjectAction,
+			Action:        delAction,
 		})
 	if err != nil {
 		return SendResponse(ctx, err,
